@@ -23,7 +23,8 @@ Sections
                 module.dilation on purpose, so these are asserted, under their own finding keys.
   extra-act     element-wise activations that are NOT in the built-in table (Hardtanh, Softsign, Tanhshrink,
                 Hardswish, Hardsigmoid, Hardshrink, Threshold, a user module x*x), made "supported" through
-                additional_nonlinear_ops={cls: _nonlinear} as documented
+                additional_nonlinear_ops={cls: _nonlinear} as documented; for two of them the rule is a
+                function written in this file (same signature, reads module.input / module.output)
   near          references = x + eps * noise, eps in 3e-4 .. 1e-2: every activation input differs by a small
                 amount that lies OUTSIDE the gradient-fallback band, so the rescale rule (not the gradient)
                 must be used; tolerance 1e-12 relative (largest residual observed over 2300 such cases: 3e-15)
@@ -45,7 +46,7 @@ references[:, j]), not the one handed back by return_references.
 
 POSSIBLE DEFECT (cases kept, switched off by the flags below; both raise on the unchanged tree)
   ENABLE_AMBIENT_NO_GRAD  deep_lift_shap called inside `with torch.no_grad():` raises
-        RuntimeError "One of the differentiated Tensors appears to not have been used in the graph":
+        RuntimeError "The differentiated Tensor at index 0 appears to not have been used in the graph":
         X_ = torch.cat([_X, _references]) (L420) is executed BEFORE the set_grad_enabled(True) block, so
         the graph does not reach _X.  Input: any model, e.g. Conv1d(4,3,3,padding=1)-ReLU-Flatten-Linear,
         X = random_one_hot((2,4,10)), references tensor (2,3,4,10), device='cpu', under torch.no_grad().
@@ -80,8 +81,8 @@ ENABLE_AMBIENT_NO_GRAD = False
 ENABLE_INPLACE_ACT = False
 
 SCOPE = {
-    'quick': 'seeded random sequential float64 nets, depth 1-4 weight layers (Conv1d k1-4/stride1-3/dilation1-3/padding0-2, Linear, AvgPool1d incl. padding/ceil/overlap, MaxPool1d with disjoint windows incl. padding/ceil, Flatten/Unflatten/Transpose, 16 element-wise activations of the table with non-default parameters), alphabet 2-5, length 6-14, 1-3 examples x 1-4 references (tensor: one-hot / zeros / uniform / real-valued; generated: dinucleotide_shuffle and shuffle with int seed, dinucleotide_shuffle unseeded), every target, batch_size 1..n*S+2: 1200 nets + every activation class (2 parameterisations x 2 weight scales) in a fixed 3-layer net + 4 non-sequential models (residual add, concatenated branches + MaxPool1d, activation/max-pool on the input, MaxPool2d) x 3 seeds + 2 nets with the default n_shuffles=20 / batch_size=32 + 100 nets with overlapping/dilated MaxPool1d and the two minimal hand-checkable ones',
-    'thorough': 'same generator, 15000 nets, 1500 overlapping/dilated MaxPool1d nets, non-sequential models x 20 seeds, every activation x 10 parameterisations x 2 weight scales',
+    'quick': 'seeded random sequential float64 nets, depth 1-4 weight layers (Conv1d k1-4/stride1-3/dilation1-3/padding0-2, Linear, AvgPool1d incl. padding/ceil/overlap, MaxPool1d with disjoint windows incl. padding/ceil, Flatten/Unflatten/Transpose, 16 element-wise activations of the table with non-default parameters; 12% of the nets wrapped into nested nn.Sequential containers), alphabet 2-5, length 6-14, 1-3 examples x 1-4 references (tensor: one-hot / zeros / uniform / real-valued / x itself as a reference / duplicate references / x + small noise; generated: dinucleotide_shuffle and shuffle with int seed, dinucleotide_shuffle unseeded), every target incl. negative indices, batch_size 1..n*S+2, options mixed in: hypothetical=True (15%), return_references=False with reference tensors (30%), a contradicting n_shuffles with reference tensors (30%), verbose/print_convergence_deltas (3%); for reference tensors the oracle pairs multipliers with the tensor that was passed in: 1200 nets + every activation class (2 parameterisations x 2 weight scales) in a fixed 3-layer net + 4 non-sequential models (residual add, concatenated branches + MaxPool1d, activation/max-pool on the input, MaxPool2d) x 3 seeds + 2 models with additional forward arguments (args) x 5 seeds/batch sizes + 8 activations outside the table registered through additional_nonlinear_ops (library rule or a rule written in the driver) x 2 + 16 random nets of them + every activation x references at distance 3e-4/1e-3/1e-2 from x (tolerance 1e-12) + 30 such random nets + 60 nets with MaxPool2d (int/pair/default kernel, stride, padding, dilation, ceil_mode, overlapping) + 12 nested + 10 nets with 5-9 examples + 8 call histories (rule overrides in a preceding call on another model; a preceding failing call on the same model) + 2 nets with the default n_shuffles=20 / batch_size=32 + 100 nets with overlapping/dilated MaxPool1d and the two minimal hand-checkable ones',
+    'thorough': 'same generator, 15000 nets, 1500 overlapping/dilated MaxPool1d nets, 800 MaxPool2d nets, non-sequential models x 20 seeds, args models x 20, every activation x 10 parameterisations x 2 weight scales, x 5 small reference distances, 300 near-reference nets, 200 + 48 nets with activations outside the table, 150 nested, 100 many-example nets, 24 call histories',
 }
 
 # ---------------------------------------------------------------------------------------------
@@ -487,7 +488,7 @@ def make_refs(case, X):
     if r == 'real':
         return torch.rand(n, S, A, L, generator=g, dtype=torch.float64), {}
     if r == 'near':          # x + eps * noise: small activation differences outside the gradient-fallback band
-        return X[:, None] + case['eps'] * torch.randn(n, S, A, L, generator=g, dtype=torch.float64), {}
+        return X[:, None] + case.get('eps', 1e-3) * torch.randn(n, S, A, L, generator=g, dtype=torch.float64), {}
     if r == 'self':          # reference 0 of every example is the example itself, the others are one-hot
         R = random_one_hot((n * S, A, L), random_state=case['xseed'] + 1).double().reshape(n, S, A, L)
         R[:, 0] = X
@@ -527,6 +528,17 @@ def _passthrough(module, grad_input, grad_output):
     return (grad_input[0],)
 
 
+def _own_rescale(module, grad_input, grad_output):
+    """a USER-WRITTEN rescale rule (signature of _nonlinear), relying only on the anchored state: module.input /
+    module.output hold the activations of the concatenated [examples; references] batch"""
+    xi, ri = module.input.chunk(2)
+    xo, ro = module.output.chunk(2)
+    d_in = xi - ri
+    tiny = d_in.abs() < 1e-6
+    ratio = (xo - ro) / torch.where(tiny, torch.ones_like(d_in), d_in)
+    return (torch.where(torch.cat([tiny, tiny]), grad_input[0], grad_output[0] * torch.cat([ratio, ratio])),)
+
+
 def _history(case, model, X):
     """calls that precede the measured ones (call histories on shared state)"""
     pre = case.get('pre')
@@ -553,7 +565,8 @@ def _call(model, X, refs_arg, kw, case, raw, ret=True, hyp=False, args=None):
     kw = dict(kw)
     if isinstance(refs_arg, torch.Tensor) and case.get('nshuf_arg') is not None:
         kw['n_shuffles'] = case['nshuf_arg']          # documented: ignored when a tensor is given
-    xops = {type(m): _nonlinear for m in model.modules() if isinstance(m, EXTRA_CLASSES)}
+    # classes outside the table: the library's own rule, or (user module Square, Softsign) a rule written here
+    xops = {type(m): (_own_rescale if isinstance(m, (Square, nn.Softsign)) else _nonlinear) for m in model.modules() if isinstance(m, EXTRA_CLASSES)}
     if xops:
         kw['additional_nonlinear_ops'] = xops
     if hyp:
